@@ -39,7 +39,7 @@ POOL = [t for t in range(0, 10000) if t not in W.CONTROL_TYPES]
 def gen_cases(tier, seed):
     rng = random.Random(f"c18-{seed}")
     cases = []
-    n = 60 if tier == "quick" else 1500
+    n = 60 if tier == "quick" else 5000
     for i in range(n):
         nint = rng.randint(1, 4)
         ints = []
@@ -55,7 +55,7 @@ def gen_cases(tier, seed):
         cases.append({"seed": nd, "ints": [{"nd": nd, "counts": [1], "adv": 1.5, "oor": False, "churn": False},
                                            {"nd": nd, "counts": [2], "adv": 1.5, "oor": False, "churn": False}],
                       "npub": 4, "tc": False})
-    nbig = 1 if tier == "quick" else 6
+    nbig = 1 if tier == "quick" else 12
     for i in range(nbig):
         cases.append({"seed": 99 + i, "ints": [{"nd": 3, "counts": [65535, 255, 1], "adv": 1.5, "oor": False, "churn": False}],
                       "npub": 16, "tc": False, "timeout": 280})
